@@ -27,7 +27,7 @@ def repo_clean():
 
 
 def main():
-    ids = sys.argv[1:] or sorted(d for d in os.listdir(SEEDED) if os.path.isdir(os.path.join(SEEDED, d)))
+    ids = sys.argv[1:] or sorted(d for d in os.listdir(SEEDED) if os.path.isfile(os.path.join(SEEDED, d, "meta.json")))
     respath = os.path.join(SEEDED, "results.json")
     results = json.load(open(respath)) if os.path.exists(respath) else {}
     for sid in ids:
@@ -56,6 +56,7 @@ def main():
         finally:
             sh(["git", "-C", REPO, "checkout", "--", "."])
             sh(["git", "-C", REPO, "clean", "-fdq"])
+        json.dump(results, open(respath, "w"), indent=1, sort_keys=True)      # after every change: a long run keeps what it has
     json.dump(results, open(respath, "w"), indent=1, sort_keys=True)
     with open(os.path.join(SEEDED, "RESULTS.md"), "w") as f:
         f.write("# Seeded changes: which checks catch which\n\n| seeded change | breaks | needs, to manifest | check: outcome |\n|---|---|---|---|\n")
